@@ -4,6 +4,7 @@ import (
 	"go/ast"
 	"go/token"
 	"go/types"
+	"strings"
 )
 
 func init() { register("C16", rulesC16, nil) }
@@ -345,6 +346,246 @@ func rulesC16(c *Ctx) {
 		}
 		c.Check(okM, "applySchema:remarshal-validated-value", as, nil, "the value re-marshalled for the caller is the value that was defaulted and validated")
 	})
+
+	c.Rule("R-C16-4", "the schema a tool advertises and the resolved schema its values are validated against are one pair: setSchema stores both from the same source on every path, the cache returns what was stored under the same key, and toolForErr pairs input with input and output with output", func() {
+		ss := c.Fn(pM, "", "setSchema")
+		sg := ss.Graph()
+		c.Need(len(ss.NonRecvParams()) == 3, "setSchema(sfield, rfield, cache)")
+		sf, rf := ss.NonRecvParams()[0], ss.NonRecvParams()[1]
+		derefOf := func(e ast.Expr, p *types.Var) bool {
+			st, ok := ast.Unparen(e).(*ast.StarExpr)
+			return ok && ss.ObjOf(st.X) == types.Object(p)
+		}
+		getT, setT := c.FnObj(pM, "SchemaCache", "getByType"), c.FnObj(pM, "SchemaCache", "setByType")
+		getS, setS := c.FnObj(pM, "SchemaCache", "getBySchema"), c.FnObj(pM, "SchemaCache", "setBySchema")
+		// resolvedOf: the schema object whose Resolve() produced the value of variable o (nil if o is not such a variable)
+		resolvedOf := func(o types.Object) types.Object {
+			var out types.Object
+			for _, w := range ss.writesToVar(ss.Body, o, false) {
+				as, ok := w.(*ast.AssignStmt)
+				if !ok || len(as.Rhs) != 1 {
+					continue
+				}
+				if ce, ok := ast.Unparen(as.Rhs[0]).(*ast.CallExpr); ok {
+					if fn := ss.Callee(ce); fn != nil && fn.Name() == "Resolve" {
+						if sel, ok := ast.Unparen(ce.Fun).(*ast.SelectorExpr); ok {
+							out = ss.ObjOf(sel.X)
+						}
+					}
+				}
+			}
+			return out
+		}
+		// every store through rfield
+		nR := 0
+		for _, w := range Writes(ss.Body, false) {
+			if !derefOf(w.LHS, rf) || w.RHS == nil {
+				continue
+			}
+			nR++
+			val := ss.ObjOf(w.RHS)
+			wv := sg.VertexOf(w.Stmt)
+			switch {
+			case val != nil && resolvedOf(val) != nil:
+				src := resolvedOf(val)
+				// the schema that was resolved is what sfield holds on this path: either it was just stored through
+				// sfield, or it was obtained from sfield (type assertion / remarshal of *sfield)
+				fromS := false
+				for _, w2 := range Writes(ss.Body, false) {
+					if derefOf(w2.LHS, sf) && w2.RHS != nil && ss.ObjOf(w2.RHS) == src && sg.Dominates(sg.VertexOf(w2.Stmt), wv) {
+						fromS = true
+					}
+				}
+				for _, w2 := range ss.writesToVar(ss.Body, src, false) {
+					as, ok := w2.(*ast.AssignStmt)
+					if !ok || len(as.Rhs) != 1 {
+						continue
+					}
+					// internalSchema = providedSchema where providedSchema, ok := (*sfield).(*jsonschema.Schema)
+					if o := ss.ObjOf(as.Rhs[0]); o != nil {
+						for _, w3 := range ss.writesToVar(ss.Body, o, false) {
+							if a3, ok := w3.(*ast.AssignStmt); ok && len(a3.Rhs) == 1 {
+								if ta, ok := ast.Unparen(a3.Rhs[0]).(*ast.TypeAssertExpr); ok && derefOf(ta.X, sf) {
+									fromS = true
+								}
+							}
+						}
+					}
+				}
+				for _, call := range ss.AllCalls(ss.Body, false) {
+					// remarshal(*sfield, &internalSchema)
+					if fn := ss.Callee(call); fn != nil && fn.Name() == "remarshal" && len(call.Args) == 2 && derefOf(call.Args[0], sf) {
+						if u, ok := ast.Unparen(call.Args[1]).(*ast.UnaryExpr); ok && ss.ObjOf(u.X) == src {
+							fromS = true
+						}
+					}
+				}
+				c.Check(fromS, "setSchema:resolved-from-the-advertised-schema#"+itoa(nR), ss, w.Stmt, "the resolved schema stored through rfield was produced by Resolve() on the schema that sfield holds on this path")
+			case val != nil && val == ss.VarFromCall(getT, 1):
+				// cache hit by type: the schema of the same entry goes to sfield
+				okPair := false
+				for _, w2 := range Writes(ss.Body, false) {
+					if derefOf(w2.LHS, sf) && w2.RHS != nil && ss.ObjOf(w2.RHS) == ss.VarFromCall(getT, 0) && sg.Dominates(sg.VertexOf(w2.Stmt), wv) {
+						okPair = true
+					}
+				}
+				c.Check(okPair, "setSchema:type-cache-hit-stores-the-pair#"+itoa(nR), ss, w.Stmt, "on a by-type cache hit both halves of the cached entry are stored (schema through sfield, resolved through rfield)")
+			case val != nil && val == ss.VarFromCall(getS, 0):
+				// cache hit by schema pointer: the key was the schema held by sfield
+				okKey := false
+				for _, call := range ss.CallsIn(ss.Body, getS, false) {
+					if o := ss.ObjOf(call.Args[0]); o != nil {
+						for _, w3 := range ss.writesToVar(ss.Body, o, false) {
+							if a3, ok := w3.(*ast.AssignStmt); ok && len(a3.Rhs) == 1 {
+								if ta, ok := ast.Unparen(a3.Rhs[0]).(*ast.TypeAssertExpr); ok && derefOf(ta.X, sf) {
+									okKey = true
+								}
+							}
+						}
+					}
+				}
+				c.Check(okKey, "setSchema:schema-cache-hit-keyed-by-sfield#"+itoa(nR), ss, w.Stmt, "the by-pointer cache is asked with the very schema held by sfield")
+			default:
+				c.Undecided("setSchema:rfield-store#"+itoa(nR), ss, w.Stmt, "a resolved schema of unknown origin is stored through rfield")
+			}
+		}
+		c.Pin("setSchema stores through rfield", nR, 4)
+		// what is put into the caches is what was just stored, under the key that lookups use
+		for _, call := range ss.CallsIn(ss.Body, setT, false) {
+			okKey := false
+			for _, g2 := range ss.CallsIn(ss.Body, getT, false) {
+				if ss.ObjOf(g2.Args[0]) != nil && ss.ObjOf(g2.Args[0]) == ss.ObjOf(call.Args[0]) {
+					okKey = true
+				}
+			}
+			okVal := ss.ObjOf(call.Args[2]) != nil && resolvedOf(ss.ObjOf(call.Args[2])) == ss.ObjOf(call.Args[1]) && ss.ObjOf(call.Args[1]) != nil
+			c.Check(okKey && okVal, "setSchema:type-cache-entry-consistent", ss, call, "setByType stores, under the key getByType uses, a schema together with the result of resolving that same schema")
+		}
+		for _, call := range ss.CallsIn(ss.Body, setS, false) {
+			// the entry is self-consistent: the value is Resolve() of the key (the key variable is the resolved
+			// schema variable itself, or one of the two is a plain copy of the other)
+			key, val := ss.ObjOf(call.Args[0]), ss.ObjOf(call.Args[1])
+			okPair := false
+			if key != nil && val != nil {
+				if src := resolvedOf(val); src != nil {
+					copyOf := func(a, b types.Object) bool {
+						for _, w3 := range ss.writesToVar(ss.Body, a, false) {
+							if a3, ok := w3.(*ast.AssignStmt); ok && len(a3.Rhs) == 1 && ss.ObjOf(a3.Rhs[0]) == b {
+								return true
+							}
+						}
+						return false
+					}
+					// … or both are views of the schema held by sfield (type assertion of *sfield, a copy of one, or the
+					// target of remarshal(*sfield, &x))
+					var fromSfield func(o types.Object, depth int) bool
+					fromSfield = func(o types.Object, depth int) bool {
+						if o == nil || depth > 3 {
+							return false
+						}
+						for _, w3 := range ss.writesToVar(ss.Body, o, false) {
+							if a3, ok := w3.(*ast.AssignStmt); ok && len(a3.Rhs) == 1 {
+								if ta, ok := ast.Unparen(a3.Rhs[0]).(*ast.TypeAssertExpr); ok && derefOf(ta.X, sf) {
+									return true
+								}
+								if fromSfield(ss.ObjOf(a3.Rhs[0]), depth+1) {
+									return true
+								}
+							}
+						}
+						for _, rc := range ss.AllCalls(ss.Body, false) {
+							if fn := ss.Callee(rc); fn != nil && fn.Name() == "remarshal" && len(rc.Args) == 2 && derefOf(rc.Args[0], sf) {
+								if u, ok := ast.Unparen(rc.Args[1]).(*ast.UnaryExpr); ok && ss.ObjOf(u.X) == o {
+									return true
+								}
+							}
+						}
+						return false
+					}
+					okPair = key == src || copyOf(src, key) || copyOf(key, src) || (fromSfield(key, 0) && fromSfield(src, 0))
+				}
+			}
+			c.Check(okPair, "setSchema:schema-cache-entry-consistent", ss, call, "setBySchema stores, under a schema pointer, the result of resolving that same schema")
+		}
+		c.Pin("cache stores in setSchema", len(ss.CallsIn(ss.Body, setT, false))+len(ss.CallsIn(ss.Body, setS, false)), 2)
+		// the cache accessors: reader and writer of each map agree
+		byType, bySchema := c.Field(pM, "SchemaCache", "byType"), c.Field(pM, "SchemaCache", "bySchema")
+		mapOf := func(f *Func, method string) *types.Var {
+			var out *types.Var
+			for _, call := range f.AllCalls(f.Body, false) {
+				if fn := f.Callee(call); fn != nil && fn.Name() == method && fn.Pkg() != nil && fn.Pkg().Path() == "sync" {
+					if sel, ok := ast.Unparen(call.Fun).(*ast.SelectorExpr); ok {
+						if fld, ok := f.ObjOf(sel.X).(*types.Var); ok && fld.IsField() {
+							out = fld
+						}
+					}
+				}
+			}
+			return out
+		}
+		gt, st := c.Fn(pM, "SchemaCache", "getByType"), c.Fn(pM, "SchemaCache", "setByType")
+		gs2, st2 := c.Fn(pM, "SchemaCache", "getBySchema"), c.Fn(pM, "SchemaCache", "setBySchema")
+		c.Check(mapOf(gt, "Load") == byType && mapOf(st, "Store") == byType, "SchemaCache:by-type-map", gt, nil, "getByType loads from and setByType stores into the byType map")
+		c.Check(mapOf(gs2, "Load") == bySchema && mapOf(st2, "Store") == bySchema, "SchemaCache:by-schema-map", gs2, nil, "getBySchema loads from and setBySchema stores into the bySchema map")
+		// setByType: cachedSchema{schema: <param 1>, resolved: <param 2>}; getByType returns cs.schema, cs.resolved in that order
+		okW := false
+		ast.Inspect(st.Body, func(n ast.Node) bool {
+			cl, ok := n.(*ast.CompositeLit)
+			if !ok || len(cl.Elts) != 2 {
+				return true
+			}
+			m := map[string]types.Object{}
+			for _, e := range cl.Elts {
+				if kv, ok := e.(*ast.KeyValueExpr); ok {
+					m[exprStr(kv.Key)] = st.ObjOf(kv.Value)
+				}
+			}
+			ps := st.NonRecvParams()
+			okW = len(ps) == 3 && m["schema"] == types.Object(ps[1]) && m["resolved"] == types.Object(ps[2])
+			return true
+		})
+		okRd := false
+		for _, r := range gt.Returns() {
+			if len(r.Results) == 3 && !isNilIdent(r.Results[0]) {
+				okRd = strings.HasSuffix(gt.FieldPath(r.Results[0]), "cachedSchema.schema") && strings.HasSuffix(gt.FieldPath(r.Results[1]), "cachedSchema.resolved")
+			}
+		}
+		c.Check(okW && okRd, "SchemaCache:entry-fields-line-up", st, nil, "setByType fills {schema, resolved} from its parameters in that order and getByType returns them in that order")
+		// toolForErr: In with InputSchema, Out with OutputSchema
+		sig := tf.Obj.Type().(*types.Signature)
+		c.Need(sig.TypeParams().Len() == 2, "toolForErr[In, Out]")
+		for _, call := range tf.CallsIn(tf.Body, setSchemaObj, false) {
+			a0, ok0 := ast.Unparen(call.Args[0]).(*ast.UnaryExpr)
+			if !ok0 {
+				continue
+			}
+			inst, hasInst := tf.Info().Instances[calleeIdent(call.Fun)]
+			want := -1
+			switch {
+			case tf.IsField(a0.X, c.Field(pM, "Tool", "InputSchema")):
+				want = 0
+			case tf.IsField(a0.X, c.Field(pM, "Tool", "OutputSchema")):
+				want = 1
+			}
+			okT := hasInst && want >= 0 && inst.TypeArgs.Len() == 1 && inst.TypeArgs.At(0) == types.Type(sig.TypeParams().At(want))
+			c.Check(okT, "toolForErr:schema-type-pairing#"+itoa(want), tf, call, "the input schema is derived from In and the output schema from Out")
+		}
+	})
+}
+
+// calleeIdent returns the identifier naming the (possibly instantiated) function of a call expression.
+func calleeIdent(fun ast.Expr) *ast.Ident {
+	switch x := ast.Unparen(fun).(type) {
+	case *ast.Ident:
+		return x
+	case *ast.SelectorExpr:
+		return x.Sel
+	case *ast.IndexExpr:
+		return calleeIdent(x.X)
+	case *ast.IndexListExpr:
+		return calleeIdent(x.X)
+	}
+	return nil
 }
 
 // decodeErrorReturns: on the branch where derr != nil every path returns without reaching hv.
